@@ -215,7 +215,7 @@ def min_(*args, **kw):
 
 def len_(x):
     if _real_isinstance(x, str) and _strs().is_sstr(x):
-        return x.slen()
+        return builtins.len(x.items)
     return builtins.len(x)
 
 
